@@ -29,9 +29,9 @@ EXTENDS Integers, FiniteSets, Sequences, TLC, Json
 CONSTANTS Ctl, MaxIdx, MaxGen, MaxOps, Variant
 
 Fixed == Variant = "fixed"
-NULL == [own |-> 0, gen |-> 0, ver |-> 0]
+NULL == [own |-> 0, gen |-> 0, ver |-> 0, noc |-> 0]
 Idx == 1..MaxIdx
-VARIABLES fabrics,   \* [Idx -> [own, gen, ver]]   own = 0: absent; ver = label / ACL version
+VARIABLES fabrics,   \* [Idx -> [own, gen, ver, noc]]   own = 0: absent; ver = label / ACL version; noc = version of the operational certificate
           kv,        \* persisted copy, same shape
           fs,        \* fail-safe: [armed, c, mode, fab, flags]
           sess,      \* set of [c, mode, fab, gen, expired, n]
@@ -77,8 +77,19 @@ Arm(c, m) == /\ ~stuck /\ Has(c, m) /\ Log([op |-> "Cmd", c |-> c, via |-> m, cm
 
 Check(s, present, absent) == SameCtx(s) /\ present \subseteq fs.flags /\ fs.flags \cap absent = {}
 Csr(c, m) == /\ ~stuck /\ Has(c, m) /\ Log([op |-> "Cmd", c |-> c, via |-> m, cmd |-> "csr"])
-             /\ IF Check(The(c, m), {}, {"csr"}) THEN fs' = [fs EXCEPT !.flags = @ \cup {"csr"}] ELSE UNCHANGED fs
+             /\ IF Check(The(c, m), {}, {"csr", "csru"}) THEN fs' = [fs EXCEPT !.flags = @ \cup {"csr"}] ELSE UNCHANGED fs
              /\ UNCHANGED <<fabrics, kv, sess, resum, resumKv, nextGen, snap, stuck, acked>>
+\* CSRRequest(isForUpdateNOC) and UpdateNOC: only over the operational session whose fabric the fail-safe is armed for;
+\* the new certificate replaces the old one in memory, the persisted copy follows at CommissioningComplete
+Csru(c) == /\ ~stuck /\ Has(c, "case") /\ Log([op |-> "Cmd", c |-> c, via |-> "case", cmd |-> "csru"])
+           /\ IF Check(The(c, "case"), {}, {"csr", "csru"}) THEN fs' = [fs EXCEPT !.flags = @ \cup {"csru"}] ELSE UNCHANGED fs
+           /\ UNCHANGED <<fabrics, kv, sess, resum, resumKv, nextGen, snap, stuck, acked>>
+Unoc(c) == /\ ~stuck /\ Has(c, "case") /\ Log([op |-> "Cmd", c |-> c, via |-> "case", cmd |-> "unoc"])
+           /\ LET s == The(c, "case") IN
+              IF Check(s, {"csru"}, {"csr", "root", "noc", "unoc"}) /\ Present(s.fab) /\ fabrics[s.fab].gen = s.gen /\ fabrics[s.fab].noc < 2
+              THEN fabrics' = [fabrics EXCEPT ![s.fab].noc = @ + 1] /\ fs' = [fs EXCEPT !.flags = @ \cup {"unoc"}]
+              ELSE UNCHANGED <<fabrics, fs>>
+           /\ UNCHANGED <<kv, sess, resum, resumKv, nextGen, snap, stuck, acked>>
 AddRoot(c, m) == /\ ~stuck /\ Has(c, m) /\ Log([op |-> "Cmd", c |-> c, via |-> m, cmd |-> "root"])
                  /\ IF Check(The(c, m), {}, {"root"}) THEN fs' = [fs EXCEPT !.flags = @ \cup {"root"}] ELSE UNCHANGED fs
                  /\ UNCHANGED <<fabrics, kv, sess, resum, resumKv, nextGen, snap, stuck, acked>>
@@ -86,9 +97,9 @@ MaxUsed == IF \E i \in Idx : Present(i) THEN CHOOSE i \in Idx : Present(i) /\ \A
 AddNoc(c, m) ==
   /\ ~stuck /\ Has(c, m) /\ Log([op |-> "Cmd", c |-> c, via |-> m, cmd |-> "noc"])
   /\ LET s == The(c, m) IN
-     IF Check(s, {"root", "csr"}, {"noc"}) /\ MaxUsed < MaxIdx /\ nextGen <= MaxGen /\ ~(\E i \in Idx : fabrics[i].own = c)
+     IF Check(s, {"root", "csr"}, {"noc", "unoc"}) /\ MaxUsed < MaxIdx /\ nextGen <= MaxGen /\ ~(\E i \in Idx : fabrics[i].own = c)
      THEN LET n == MaxUsed + 1 IN
-          /\ fabrics' = [fabrics EXCEPT ![n] = [own |-> c, gen |-> nextGen, ver |-> 0]]
+          /\ fabrics' = [fabrics EXCEPT ![n] = [own |-> c, gen |-> nextGen, ver |-> 0, noc |-> 0]]
           /\ fs' = [fs EXCEPT !.fab = n, !.flags = @ \cup {"noc"}]
           /\ sess' = {IF x = s /\ s.mode = "pase" THEN [x EXCEPT !.fab = n, !.gen = nextGen] ELSE x : x \in sess}
           /\ nextGen' = nextGen + 1
@@ -171,7 +182,7 @@ FactoryReset == /\ fabrics' = [i \in Idx |-> NULL] /\ kv' = [i \in Idx |-> NULL]
                 /\ UNCHANGED <<nextGen, snap>>
 
 Next == /\ nops < MaxOps
-        /\ \/ \E c \in Ctl : Pase(c) \/ Case(c) \/ Case2(c) \/ Use(c) \/ Label(c) \/ Complete(c)
+        /\ \/ \E c \in Ctl : Pase(c) \/ Case(c) \/ Case2(c) \/ Use(c) \/ Label(c) \/ Complete(c) \/ Csru(c) \/ Unoc(c)
            \/ \E c \in Ctl, m \in {"pase", "case"} : Arm(c, m) \/ ArmZero(c, m) \/ Csr(c, m) \/ AddRoot(c, m) \/ AddNoc(c, m)
            \/ \E c \in Ctl, f \in Idx : RemoveFabric(c, f)
            \/ ExpireTimer \/ PersistResum \/ Restart \/ FactoryReset
